@@ -18,11 +18,18 @@ MODULES = ["AdaptiveProofs.Props.C03"]
 
 PARTIAL = [
     "tiles_hull_statement (facets in <= 2 simplices, no orphan vertex, the simplices cover the hull without overlap, Delaunay for "
-    "general position; exact predicates) is NOT proved: it needs a formal Bowyer-Watson correctness proof over truthful geometric "
-    "predicates; tiles_hull_partial proves only its index-agreement clause. On the real code the clauses are audited exactly after "
+    "general position; exact predicates) is NOT proved as a whole. Proved of it: the index-agreement clause (tiles_hull_partial) and, "
+    "in dimension 2 and 3, CONSERVATION OF VOLUME by the cavity retriangulation: for every accepted interior insertion of the model "
+    "(bowyer_watson_exact: deleted = the bad simplices, added = hole faces ++ [pt]) the added simplices have exactly the total volume "
+    "of the removed ones, given three geometric hypotheses about truthful predicates - removed simplices that share a facet lie on "
+    "opposite sides of it and no facet is in more than two (OppositeSides), the new point sees every hole facet from the inside "
+    "(star-shaped cavity), no removed simplex is degenerate (kernel-checked counterexample without it) - "
+    "bowyer_watson_preserves_volume_2d/_3d, add_point_interior_preserves_volume_2d/_3d. Still missing: that truthful predicates imply "
+    "those hypotheses (star-shapedness from the in-circle test, OppositeSides as an invariant), the hull-extension path, cover / "
+    "disjointness as sets, facet multiplicity of the new state, Delaunay. On the real code all clauses are audited exactly after "
     "every insertion, where they FAIL on degenerate / anisotropic inputs (known findings C03.tiling:*, "
     "C03.duplicate_rejected:vertex_located_in_foreign_simplex_within_eps). Proved for all oracles and sequences: index invariant, "
-    "exact report, rejections are no-ops, no KeyError/IndexError, volume split identity in dimension 2 and 3.",
+    "exact report, rejections are no-ops, no KeyError/IndexError.",
 ]
 
 
